@@ -34,6 +34,8 @@ pub const C01_KINDS: &[&str] = &[
 	"proof-swapped",
 	"sig-swapped",
 	"amount-changed-reproved",
+	"coinbase-kernel-bad-signature",
+	"coinbase-inflated-excess-adjusted",
 ];
 pub const C13_KINDS: &[&str] = &["immature-coinbase", "immature-with-mature-coinbase", "lock-height-future", "nrd-too-recent"];
 pub const C04_KINDS: &[&str] = &[
@@ -404,7 +406,7 @@ impl World {
 		let delta = self.rng.range(1, 1_000_000_000);
 		let mut cb_fee_override: Option<u64> = None;
 		match kind {
-			"coinbase-inflated" => {
+			"coinbase-inflated" | "coinbase-inflated-excess-adjusted" => {
 				let fees: u64 = tx1.fee() + tx2.as_ref().map(|t| t.fee()).unwrap_or(0);
 				cb_fee_override = Some(fees + delta);
 			}
@@ -508,6 +510,32 @@ impl World {
 				let p0 = b.body.outputs[0].proof;
 				b.body.outputs[0].proof = b.body.outputs[1].proof;
 				b.body.outputs[1].proof = p0;
+			}
+			"coinbase-kernel-bad-signature" => {
+				// every sum still holds; only the signature ties the coinbase excess to a key
+				let idx = b.body.kernels.iter().position(|k| k.is_coinbase())?;
+				let mut raw = [0u8; 64];
+				raw.copy_from_slice(&self.rng.bytes(64));
+				b.body.kernels[idx].excess_sig = grin_util::secp::Signature::from_raw_data(&raw).ok()?;
+			}
+			"coinbase-inflated-excess-adjusted" => {
+				// the coinbase output claims more than reward + fees and the coinbase kernel's excess
+				// is set to output - (reward + fees)*H, so that the coinbase equation and the kernel
+				// sums balance; the excess then hides value and cannot be signed
+				let real_fees: u64 = txs.iter().map(|t| t.fee()).sum();
+				let idx = b.body.kernels.iter().position(|k| k.is_coinbase())?;
+				let cb_out = b.body.outputs.iter().find(|o| o.is_coinbase())?.commitment();
+				let excess = {
+					let secp = grin_util::static_secp_instance();
+					let secp = secp.lock();
+					let over = secp.commit_value(grin_core::consensus::reward(real_fees)).ok()?;
+					secp.commit_sum(vec![cb_out], vec![over]).ok()?
+				};
+				b.body.kernels[idx].excess = excess;
+				let mut raw = [0u8; 64];
+				raw.copy_from_slice(&self.rng.bytes(64));
+				b.body.kernels[idx].excess_sig = grin_util::secp::Signature::from_raw_data(&raw).ok()?;
+				b.body.sort();
 			}
 			"sig-swapped" => {
 				let n = b.body.kernels.len();
